@@ -25,7 +25,7 @@ MANIFEST = dict(
          'shapes, pairs of strings of length <= 2 over 4/8 characters; every shape with names a/A, <= 2 children, block '
          'depth <= 2/3), walks the parse loop one iteration per state over every token document the loop reads to its '
          'end (length <= 5/7 over 9/12 token symbols + 10 longer seeds, 7 parse option sets) and over every text of '
-         'length <= 4/5 over 10/11 characters (lexer invariants: total, one final EOF or error, monotone lines). Every '
+         'length <= 4/5 over 10 characters (lexer invariants: total, one final EOF or error, monotone lines). Every '
          'job TLC finished is executed on the real Keyvalues/Tokenizer: serialise to str and to a file object, export(), '
          'tree snapshot after serialising, parse from str / chunk list / file object / ready-made Tokenizer, token stream; '
          'plus seeded random trees (all Unicode scalar values, depth 50, width 200, 2000-character strings, random '
